@@ -48,7 +48,7 @@ def one(path):
         json.dump(meta, open(os.path.join(d, "meta.json"), "w"), indent=1)
     return name, ok, checks, out
 paths = sorted(glob.glob(os.environ.get("WT", "/tmp/wt4") + "/*/mutants/m*"))
-with cf.ThreadPoolExecutor(max_workers=3) as ex:
+with cf.ThreadPoolExecutor(max_workers=int(os.environ.get("WORKERS", "3"))) as ex:
     for name, ok, checks, out in ex.map(one, paths):
         caught = [p for p, c in checks.items() if c["exit"] == 1]
         print("%-22s confirmed=%s caught_by=%s missed=%s" % (name, ok, caught, [p for p in checks if p not in caught]), flush=True)
